@@ -1,0 +1,84 @@
+// MIT License
+//
+// Copyright (c) 2022-2026 GoAkt Team
+//
+// Permission is hereby granted, free of charge, to any person obtaining a copy
+// of this software and associated documentation files (the "Software"), to deal
+// in the Software without restriction, including without limitation the rights
+// to use, copy, modify, merge, publish, distribute, sublicense, and/or sell
+// copies of the Software, and to permit persons to whom the Software is
+// furnished to do so, subject to the following conditions:
+//
+// The above copyright notice and this permission notice shall be included in all
+// copies or substantial portions of the Software.
+//
+// THE SOFTWARE IS PROVIDED "AS IS", WITHOUT WARRANTY OF ANY KIND, EXPRESS OR
+// IMPLIED, INCLUDING BUT NOT LIMITED TO THE WARRANTIES OF MERCHANTABILITY,
+// FITNESS FOR A PARTICULAR PURPOSE AND NONINFRINGEMENT. IN NO EVENT SHALL THE
+// AUTHORS OR COPYRIGHT HOLDERS BE LIABLE FOR ANY CLAIM, DAMAGES OR OTHER
+// LIABILITY, WHETHER IN AN ACTION OF CONTRACT, TORT OR OTHERWISE, ARISING FROM,
+// OUT OF OR IN CONNECTION WITH THE SOFTWARE OR THE USE OR OTHER DEALINGS IN THE
+// SOFTWARE.
+
+package net
+
+import (
+	"io"
+	"net"
+	"runtime"
+	"testing"
+
+	"github.com/stretchr/testify/require"
+)
+
+// A zero-length Read followed by Close must not leave bytes of the closed
+// connection in a pooled decoder: the next connection wrapped by the same
+// wrapper has to read exactly what its own peer wrote.
+func TestCompressedConnZeroLengthReadDoesNotLeakIntoNextConn(t *testing.T) {
+	// sync.Pool is per-P: one P makes the reuse of the pooled reader deterministic.
+	defer runtime.GOMAXPROCS(runtime.GOMAXPROCS(1))
+
+	gz, err := NewGzipConnWrapper()
+	require.NoError(t, err)
+	zs, err := NewZstdConnWrapper()
+	require.NoError(t, err)
+	wrappers := map[string][2]ConnWrapper{
+		"brotli": {NewBrotliConnWrapper(), NewBrotliConnWrapper()},
+		"gzip":   {gz, gz},
+		"zstd":   {zs, zs},
+	}
+	for name, pair := range wrappers {
+		t.Run(name, func(t *testing.T) {
+			for round, msg := range []string{"hello", "WORLD"} {
+				ln, err := net.Listen("tcp", "127.0.0.1:0")
+				require.NoError(t, err)
+				c2, err := net.Dial("tcp", ln.Addr().String())
+				require.NoError(t, err)
+				c1, err := ln.Accept()
+				require.NoError(t, err)
+				require.NoError(t, ln.Close())
+
+				a, err := pair[0].Wrap(c1)
+				require.NoError(t, err)
+				b, err := pair[1].Wrap(c2)
+				require.NoError(t, err)
+
+				_, err = b.Write([]byte(msg))
+				require.NoError(t, err)
+				if round == 0 {
+					n, err := a.Read(nil)
+					require.NoError(t, err)
+					require.Zero(t, n)
+				} else {
+					buf := make([]byte, len(msg))
+					_, err := io.ReadFull(a, buf)
+					require.NoError(t, err)
+					require.Equal(t, msg, string(buf))
+				}
+				// a closes with unread data: the peer's Close may see a reset, which is fine
+				_ = a.Close()
+				_ = b.Close()
+			}
+		})
+	}
+}
